@@ -496,6 +496,14 @@ fn containers<C: Suite, T: Wire<C>>(vals: &[T], ctx: &mut Ctx, prims: &[Vec<u8>]
                 }
                 ctx.count("container_decodes");
             }
+            // a version field wider than its one byte: varint spellings of 0 and of multiples of 256 in front of the rest
+            for pre in [&[0x80u8, 0x00][..], &[0x80, 0x02], &[0x80, 0x80, 0x04], &[0x80, 0x80, 0x00], &[0x80, 0x80, 0x80, 0x80, 0x10], &[0x00, 0x00]] {
+                let m = [pre, &b[1..]].concat();
+                if T::dec(&m).is_ok() {
+                    ctx.viol("container-accepts", &format!("format-version-wide/{}", T::NAME), d("a multi-byte spelling of the format version is accepted", json!({"prefix": hex::encode(pre)})));
+                }
+                ctx.count("container_decodes");
+            }
             for pos in 1..5 {
                 for x in 0..=255u8 {
                     if x == b[pos] {
@@ -587,9 +595,9 @@ fn containers<C: Suite, T: Wire<C>>(vals: &[T], ctx: &mut Ctx, prims: &[Vec<u8>]
                 if let Ok(val) = serde_json::from_str::<Value>(&s) {
                     let mut variants: Vec<(String, Value)> = vec![];
                     if val.get("header").is_some() {
-                        for ver in [1, 2, 255] {
+                        for ver in [json!(1), json!(2), json!(255), json!(256), json!(512), json!(65536), json!(4294967296u64), json!(-256), json!(0.5), json!("0"), json!(null), json!([0]), json!(false)] {
                             let mut x = val.clone();
-                            x["header"]["version"] = json!(ver);
+                            x["header"]["version"] = ver;
                             variants.push(("format-version".into(), x));
                         }
                         for cs in ["FROST-ED25519-SHA512-v1", "FROST-secp256k1-SHA256-v1", "FROST-secp256k1-SHA256-TR-v1", "FROST-RISTRETTO255-SHA512-v1", "", "frost"] {
